@@ -102,10 +102,29 @@ def body_walk(ss, in_loop, in_fun_loop_ok=True):
     return probs
 
 
+def handler_counts(ss, depth, acc):
+    """acc[0] = max number of handlers over top-level try statements of a behavior, acc[1] = over nested ones"""
+    for s in ss:
+        k = s[0]
+        if k == "WH":
+            handler_counts(s[2], depth, acc)
+        elif k == "IF":
+            handler_counts(s[2], depth, acc)
+            handler_counts(s[3], depth, acc)
+        elif k == "TRY":
+            acc[0 if depth == 0 else 1] = max(acc[0 if depth == 0 else 1], len(s[2]))
+            for blk in [s[1]] + [h[1] for h in s[2]]:
+                handler_counts(blk, depth + 1, acc)
+
+
 def quirks(p):
     out = set()
     for b in p["behaviors"]:
         out.update(body_walk(b["body"], False))
+        acc = [0, 0]
+        handler_counts(b["body"], 0, acc)
+        if acc[1] > acc[0]:
+            out.add("e")     # nonlocal _Scenic_interrupt_condition_i without a binding: compile error
         if has_nested_return(b["body"], 0):
             out.add("c")
         if b["inv"] and any(s[0] in ("TRY", "DOF", "DOU") for s in cp.walk(b["body"])):
@@ -318,9 +337,10 @@ def gen_interrupt_program(rng):
     p = cp.empty_program(1)
     for i in range(nb):
         subs = list(range(i + 1, nb))
-        body = [("TRY",) + tuple(g.stmt("B", 3, subs, False, False, 0)[0][1:])] if False else g.block("B", 3, subs, rng.randint(1, 3))
-        if not any(s[0] == "TRY" for s in cp.walk(body)) and i == 0:
-            body = g.stmt_try(subs) + body if hasattr(g, "stmt_try") else body
+        body = g.block("B", 3, subs, rng.randint(1, 3))
+        if not any(s[0] == "TRY" for s in cp.walk(body)) and rng.random() < 0.8:
+            pos = [i for i in range(len(body) + 1) if i == 0 or body[i - 1] not in (("MK", 90), ("MK", 91))]
+            body.insert(rng.choice(pos), force_try(rng, g, subs)[0])
         body = g.ensure_yield("B", body)
         p["behaviors"].append(dict(pre=[g.cond(bias=0.95, const=0.6) for _ in range(rng.choice([0, 0, 0, 1]))],
                                    inv=[g.cond(bias=0.9, const=0.3) for _ in range(rng.choice([0, 0, 1]))], body=body))
@@ -355,6 +375,8 @@ PROBES = [
      [("WH", True, [("TK", 1), ("TRY", [("TRY", [("TK", 2), ("TK", 3)], [(0, [("BR",)])])], [(False, [("TK", 9)])])]), ("TK", 7), ("TK", 8)]),
     ("break-ignored", "a break in a handler is ignored when a later handler of the same statement contains a try-interrupt",
      [("WH", True, [("TK", 1), ("TRY", [("TK", 2), ("TK", 3)], [(0, [("BR",)]), (False, [("TRY", [("TK", 5)], [(False, [("TK", 6)])])])])]), ("TK", 7), ("TK", 8)]),
+    ("nested-more-handlers", "a try-interrupt nested in a block of another one does not compile when it has more handlers than every top-level try-interrupt of the behavior",
+     [("TK", 1), ("TRY", [("TRY", [("TK", 2), ("TK", 3)], [(False, [("TK", 5)]), (0, [("TK", 6)])])], [(False, [("TK", 9)])]), ("TK", 7)]),
     ("nested-return", "a return in a handler of a nested try-interrupt only ends the statements, the behavior continues",
      [("TK", 1), ("TRY", [("TRY", [("TK", 2), ("TK", 3)], [(0, [("RT",)])]), ("TK", 4)], [(False, [("TK", 9)])]), ("TK", 7), ("TK", 8)]),
 ]
@@ -378,7 +400,7 @@ def main():
         cs = body["case"]["case"]
         cases.append((cs["name"], cs["program"], cp.program_src(cs["program"]), cs["run"], None))
     else:
-        nprog = 150 if quick else 4000
+        nprog = 100 if quick else 4000
         ntab = 24 if quick else 64
         made = 0
         attempts = 0
@@ -388,20 +410,27 @@ def main():
             if not any(s[0] == "TRY" for b in p["behaviors"] for s in cp.walk(b["body"])):
                 continue
             q = quirks(p)
-            if "a" in q or "b" in q:
-                c.hist("generator:avoided-" + "".join(sorted(q & {"a", "b"})))
+            if q & {"a", "b", "e"}:
+                c.hist("generator:avoided-" + "".join(sorted(q & {"a", "b", "e"})))
                 continue
             made += 1
             src = cp.program_src(p)
             L = 5
             n = len(g.tab_kinds)
-            for ti, tab in enumerate(itertools.islice(tables_for(g.rng, n, 4 if n * 4 <= 8 else L, ntab), 256 if quick else 256)):
+            cap = 256 if (made % 6 == 0 or not quick) else ntab
+            for ti, tab in enumerate(itertools.islice(tables_for(g.rng, n, 4 if (n * 4 <= 8 and cap == 256) else L, ntab), cap)):
                 cases.append((f"interrupt-{made}-{ti}", p, src, dict(tab=tab, perms=[], max_steps=6, timestep=1, raise_gv=(ti % 3 != 2)), None))
         for name, what, body in PROBES:
             p = cp.empty_program(1)
             p["behaviors"] = [dict(pre=[], inv=[], body=body)]
             p["objects"] = [0]
             cases.append(("probe-" + name, p, cp.program_src(p), dict(tab=[[False, False, True, False, False, False]], perms=[], max_steps=6, timestep=1, raise_gv=True), what))
+        # F23: the caller's invariant (row 0) is false at step 1 only, while B1 runs under `do ... for`
+        p = cp.empty_program(1)
+        p["behaviors"] = [dict(pre=[], inv=[0], body=[("DOF", 1, 5, "steps")]), dict(pre=[], inv=[], body=[("WH", True, [("TK", 5)])])]
+        p["objects"] = [0]
+        cases.append(("probe-invariant-while-sub-runs", p, cp.program_src(p), dict(tab=[[True, False, True, True, True, True]], perms=[], max_steps=5, timestep=1, raise_gv=True),
+                      "the caller's invariant is checked while its sub-behaviour runs under do ... for"))
 
     by_src = {}
     for idx, cs in enumerate(cases):
@@ -437,7 +466,7 @@ def main():
             c.hist("raise_gv:" + str(run.get("raise_gv", True)))
             for k in cp.kinds(p) & {"TRY", "AB", "BR", "CO", "RT", "DO", "DOF", "DOU", "WH"}:
                 c.hist("stmt:" + k)
-            ok = c12.compare(c, name, p, src, run, obs, mod, None)
+            ok = True if probe else c12.compare(c, name, p, src, run, obs, mod, None)   # probes are outside the modelled fragment
             # oracle: the documented semantics
             rk = ref["kind"]
             if not run.get("raise_gv", True) and rk in ("PreconditionViolation", "InvariantViolation"):
